@@ -217,6 +217,10 @@ func c08Func(fname string, params string, shape string, mode int, rng *rand.Rand
 			case 'A':
 				nameCtr++
 				v := c08Val{"inst", -1, fmt.Sprintf("v%d", nameCtr)}
+				if rng.Intn(4) == 0 {
+					// a name that is a number (spelled quoted): it takes no part in the numbering
+					v.name = fmt.Sprintf("\"%d\"", nameCtr)
+				}
 				fmt.Fprintf(&sb, "  %%%s = add i32 1, 2\n", v.name)
 				vals = append(vals, v)
 				sb.WriteString(useLine(v))
